@@ -106,6 +106,8 @@ def post_output_geobox(args, kw, res, exc, snap):
     fx0, fx1, fy0, fy1 = X.min(), X.max(), Y.min(), Y.max()
     snapping = not tight and anchor not in ("floating", AnchorEnum.FLOATING)
     mode = "shape" if shape_req is not None else resolution if isinstance(resolution, str) else "explicit"
+    if shape_req is not None and "resolution" in kw:
+        mode = "shape+resolution"
     cls = f"{mode}|{'rotated' if (abs(b) > 1e-12 * abs(a)) else 'north-up'}|{'utm' if utm else 'same-crs' if same_crs else 'cross'}"
     sig = hsig("o", gen.aff6(src.affine), tuple(src.shape), str(target), repr(resolution), repr(shape_req), repr(anchor), tight, tol)
     if shape_req is None:
@@ -225,6 +227,15 @@ def one(mon: Monitor, rng: random.Random) -> None:
         if e is not None:
             return
         kw["resolution"] = abs(g0.resolution.x) * rng.choice([0.7, 1, 2.5])
+    if mode in ("shape", "shapeint") and rng.random() < 0.4:
+        # shape= together with resolution=: the documentation says the resolution is ignored
+        r_extra = rng.choice(["fit", "same", "num", "num"])
+        if r_extra == "num":
+            g0, e = call(compute_output_geobox, src, target)
+            if e is None:
+                kw["resolution"] = abs(g0.resolution.x) * rng.choice([0.7, 1, 2.5])
+        else:
+            kw["resolution"] = r_extra
     how = rng.random()
     if how < 0.6:
         call(compute_output_geobox, src, target, **kw)
@@ -258,7 +269,7 @@ def run(mon: Monitor, tier: str, seed: int, shard: int, nshards: int) -> None:
             call(compute_output_geobox, src, tgt, resolution=r.choice(["auto", "fit"]))
         for pt, n in [("compute_output_geobox", 350), ("compute_output_geobox|auto|north-up|cross", 20), ("compute_output_geobox|fit|north-up|cross", 10), ("compute_output_geobox|same|north-up|cross", 10),
                       ("compute_output_geobox|explicit|north-up|cross", 10), ("compute_output_geobox|auto|rotated|cross", 8), ("compute_output_geobox|auto|north-up|utm", 5),
-                      ("compute_output_geobox|shape|north-up|cross", 8), ("compute_output_geobox|shape|north-up|cross|int", 8), ("compute_output_geobox|identity", 10)]:
+                      ("compute_output_geobox|shape|north-up|cross", 8), ("compute_output_geobox|shape|north-up|cross|int", 8), ("compute_output_geobox|identity", 10), ("compute_output_geobox|shape+resolution|north-up|cross", 5)]:
             mon.floor(pt, n)
     finally:
         detach_all()
